@@ -37,11 +37,14 @@ pub fn decode(src: &mut &[u8], dst: &mut [u8], state_count: usize) -> io::Result
     Ok(())
 }
 
-pub fn normalize_frequencies(frequencies: &mut [u32; ALPHABET_SIZE], bits: u32) {
-    let mut sum: u32 = frequencies.iter().sum();
+pub fn normalize_frequencies(frequencies: &mut [u32; ALPHABET_SIZE], bits: u32) -> io::Result<()> {
+    let mut sum = frequencies
+        .iter()
+        .try_fold(0u32, |sum, &f| sum.checked_add(f))
+        .ok_or_else(invalid_frequency_table_error)?;
 
     if sum == 0 || sum == (1 << bits) {
-        return;
+        return Ok(());
     }
 
     let mut shift = 0;
@@ -51,9 +54,21 @@ pub fn normalize_frequencies(frequencies: &mut [u32; ALPHABET_SIZE], bits: u32) 
         shift += 1;
     }
 
+    // The states are stepped using `bits` bits for the cumulative frequency, i.e., the normalized
+    // frequencies must add up to exactly 2^bits.
+    if sum > (1 << bits) {
+        return Err(invalid_frequency_table_error());
+    }
+
     for f in frequencies {
         *f <<= shift;
     }
+
+    Ok(())
+}
+
+fn invalid_frequency_table_error() -> io::Error {
+    io::Error::new(io::ErrorKind::InvalidData, "invalid frequency table")
 }
 
 fn read_frequencies(src: &mut &[u8]) -> io::Result<[u32; ALPHABET_SIZE]> {
@@ -67,7 +82,7 @@ fn read_frequencies(src: &mut &[u8]) -> io::Result<[u32; ALPHABET_SIZE]> {
         }
     }
 
-    normalize_frequencies(&mut frequencies, NORMALIZATION_BITS);
+    normalize_frequencies(&mut frequencies, NORMALIZATION_BITS)?;
 
     Ok(frequencies)
 }
@@ -85,4 +100,45 @@ pub(super) fn build_cumulative_frequencies(
     }
 
     cumulative_frequencies
+}
+
+#[cfg(test)]
+mod tests {
+    use super::*;
+
+    #[test]
+    fn test_normalize_frequencies() -> io::Result<()> {
+        let mut frequencies = [0; ALPHABET_SIZE];
+        frequencies[usize::from(b'a')] = 3;
+        frequencies[usize::from(b'b')] = 1;
+        normalize_frequencies(&mut frequencies, 12)?;
+        assert_eq!(frequencies[usize::from(b'a')], 3072);
+        assert_eq!(frequencies[usize::from(b'b')], 1024);
+
+        // The total frequency is not a power of 2.
+        let mut frequencies = [0; ALPHABET_SIZE];
+        frequencies[usize::from(b'a')] = 3;
+        assert!(matches!(
+            normalize_frequencies(&mut frequencies, 12),
+            Err(e) if e.kind() == io::ErrorKind::InvalidData
+        ));
+
+        // The total frequency is greater than 2^bits.
+        let mut frequencies = [0; ALPHABET_SIZE];
+        frequencies[usize::from(b'a')] = 4096;
+        frequencies[usize::from(b'b')] = 1;
+        assert!(matches!(
+            normalize_frequencies(&mut frequencies, 12),
+            Err(e) if e.kind() == io::ErrorKind::InvalidData
+        ));
+
+        // The total frequency overflows.
+        let mut frequencies = [u32::MAX; ALPHABET_SIZE];
+        assert!(matches!(
+            normalize_frequencies(&mut frequencies, 12),
+            Err(e) if e.kind() == io::ErrorKind::InvalidData
+        ));
+
+        Ok(())
+    }
 }
